@@ -580,7 +580,19 @@ func c10GenLeader(rt *rapid.T) c10Leader {
 		stable = stable && f.PingFail == 0
 	}
 	if stable && k > 0 {
-		switch rapid.SampledFrom([]int{0, 1, 1, 1, 2, 2}).Draw(rt, "fault") {
+		fault := rapid.SampledFrom([]int{0, 1, 1, 1, 2, 2}).Draw(rt, "fault")
+		if fault != 0 {
+			// join times are distinct (the property's own premise): with ties the order among equals may differ from round
+			// to round, and a follower that misses one round's assignment then legitimately disagrees with its twin
+			for j := range sc.Followers {
+				if sc.Followers[j].JoinTime > 1_000_000_000_000 {
+					sc.Followers[j].JoinTime += int64(j) * 1000 // generated within a window of 100
+				} else {
+					sc.Followers[j].JoinTime = sc.Followers[j].JoinTime*16 + int64(j)
+				}
+			}
+		}
+		switch fault {
 		case 1: // some RPCs fail (any round, also the last)
 			for j := range sc.Followers {
 				if rapid.IntRange(0, 2).Draw(rt, "rpcf") == 0 {
